@@ -25,6 +25,10 @@ func H_C18_mustache() {
 	t := NewMustacheTemplate()
 	t.SetAutoVariables(false)
 	var err error
+	if vChoice("used-before", 2) == 1 {
+		// the template instance has already compiled another template over the same names
+		guardedM(func() { _ = t.SetTemplate("{{a}}{{#B}}{{x}}{{/B}}{{^Ab}}.{{/Ab}}") })
+	}
 	if guardedM(func() { err = t.SetTemplate(string(text)) }) {
 		return
 	}
